@@ -96,7 +96,7 @@ verus_unit("assertv", "assertv", ["C16"], ["Assertion::overlaps_with (every trac
 native_unit("boundary_native", "winter-air", "air", "native/boundary_bounded.rs", ["C16", "C17"],
             ["Assertion::periodic", "Assertion::sequence", "assertions::validate_stride", "TransitionConstraints::new", "TransitionConstraints::combine_evaluations", "AirContext::set_num_transition_exemptions", "ConstraintDivisor::from_transition", "BoundaryConstraints::new", "boundary::prepare_assertions", "boundary::group_constraints", "BoundaryConstraintGroup::divisor", "BoundaryConstraint::evaluate_at", "ConstraintDivisor::from_assertion", "ConstraintDivisor::evaluate_at"],
             "Assertion::periodic / sequence accept exactly the documented shapes (stride a power of two >= 2, first step strictly below the stride, a non-empty power-of-two number of values) and refuse everything else; TransitionConstraints::new gives the first num_main composition coefficients to the main and the following num_aux to the auxiliary constraints and combine_evaluations is their random linear combination over the transition divisor (1..4 main x 0..4 auxiliary constraints); assertion lists in which two assertions constrain the same cell are refused in every listing order; otherwise the constraint groups' divisors vanish on exactly the asserted steps of each of their constraints and each constraint compares the cell with the asserted value (value polynomial incl. offset); a number of transition exemptions is accepted exactly when it is in 1..=len/2+1 and the quotient still fits the constraint evaluation domain, and the transition divisor vanishes on exactly the non-exempt steps",
-            "NATIVE EXECUTION, not a proof: trace lengths 8, 16, 32 x 2 columns x every single / periodic / sequence assertion: all single assertions, all ordered pairs, 3000 seeded triples per length; exemptions: trace lengths 8..64 x every count 0..=len x constraint degrees 1..9 alone, in pairs and with periodic cycles; 128-bit field")
+            "NATIVE EXECUTION, not a proof: trace lengths 8, 16, 32 x 2 columns x every single / periodic / sequence assertion: all single assertions, all ordered pairs, 3000 seeded triples per length; exemptions: trace lengths 8..64 x every count 0..=len x constraint degrees 1..9 alone, in pairs and with periodic cycles; multi-segment traces: lengths 8, 16 x main / auxiliary widths 1..=3 x every column below main + aux x 6 assertion shapes x main / auxiliary list (an assertion is accepted exactly when its column exists in its own segment, and is enforced on exactly its cells there); 128-bit field")
 
 
 verus_unit("friverifv", "friverifv", ["C05", "C04", "C15"], [
